@@ -57,7 +57,12 @@ def create_filtering_executor(
         return None
     if isinstance(plain_executor, ex.SubprocessTestCaseExecutor):
         return None
-    return ex.SubprocessTestCaseExecutor(plain_executor.subject_properties.sharing_registries())
+    stop = config.configuration.stopping
+    return ex.SubprocessTestCaseExecutor(
+        plain_executor.subject_properties.sharing_registries(),
+        maximum_test_execution_timeout=stop.maximum_test_execution_timeout,
+        test_execution_time_per_statement=stop.test_execution_time_per_statement,
+    )
 
 
 class AssertionGenerator(cv.ChromosomeVisitor):
@@ -339,11 +344,21 @@ class MutationAnalysisAssertionGenerator(AssertionGenerator):
         # rejected.
         subject_properties = plain_executor.subject_properties.sharing_registries()
 
+        # The configured time bounds hold for the executions on the mutants, too.
+        stop = config.configuration.stopping
         self._mutation_executor: ex.TestCaseExecutor
         if config.configuration.subprocess:
-            self._mutation_executor = ex.SubprocessTestCaseExecutor(subject_properties)
+            self._mutation_executor = ex.SubprocessTestCaseExecutor(
+                subject_properties,
+                maximum_test_execution_timeout=stop.maximum_test_execution_timeout,
+                test_execution_time_per_statement=stop.test_execution_time_per_statement,
+            )
         else:
-            self._mutation_executor = ex.TestCaseExecutor(subject_properties)
+            self._mutation_executor = ex.TestCaseExecutor(
+                subject_properties,
+                maximum_test_execution_timeout=stop.maximum_test_execution_timeout,
+                test_execution_time_per_statement=stop.test_execution_time_per_statement,
+            )
 
         self._mutation_executor.add_remote_observer(ato.RemoteAssertionVerificationObserver())
 
